@@ -1,6 +1,6 @@
 (* C09 — proofs, part 3: the literal per-lane swap loops of luDecomposition compute the gather of the model. *)
 From Coq Require Import List Arith Bool Lia.
-From DuneV Require Import C09_Model C09_Proofs.
+From DuneV Require Import C09_Model C09_Proofs C09_Proofs_LU.
 Import ListNotations.
 
 Section SwapProof.
@@ -264,3 +264,119 @@ Proof.
       now destruct l. }
   unfold colswapped. rewrite !G. reflexivity.
 Qed.
+
+(* ---------------------------------------------------------------- the literal loops inside the algorithms, hypotheses discharged *)
+Section Canonical.
+  Variable T : Type.
+  Variable zero : T.
+  Variable W n : nat.
+  Notation get3 := (c09_get3 T zero).
+  Notation get2 := (c09_get2 T zero).
+
+  Definition canon3 (M : list (list (list T))) : Prop :=
+    M = c09_tab n (fun r => c09_tab n (fun c => c09_tab W (fun l => get3 M r c l))).
+  Definition canon2 (x : list (list T)) : Prop := x = c09_tab n (fun r => c09_tab W (fun l => get2 x r l)).
+
+  Lemma canon3_tab : forall f, canon3 (c09_tab n (fun r => c09_tab n (fun c => c09_tab W (fun l => f r c l)))).
+  Proof.
+    intros. unfold canon3. apply c09_tab_ext. intros r Hr. apply c09_tab_ext. intros c Hc. apply c09_tab_ext. intros l Hl.
+    unfold c09_get3. rewrite (c09_tab_nth _ n _ r []) by assumption. rewrite (c09_tab_nth _ n _ c []) by assumption. now rewrite c09_tab_nth.
+  Qed.
+  Lemma canon2_tab : forall f, canon2 (c09_tab n (fun r => c09_tab W (fun l => f r l))).
+  Proof.
+    intros. unfold canon2. apply c09_tab_ext. intros r Hr. apply c09_tab_ext. intros l Hl.
+    unfold c09_get2. rewrite (c09_tab_nth _ n _ r []) by assumption. now rewrite c09_tab_nth.
+  Qed.
+  Lemma canon3_eq : forall M M', canon3 M -> canon3 M' -> (forall r c l, r < n -> c < n -> l < W -> get3 M r c l = get3 M' r c l) -> M = M'.
+  Proof.
+    intros M M' C C' E. rewrite C, C'. apply c09_tab_ext. intros r Hr. apply c09_tab_ext. intros c Hc. apply c09_tab_ext. intros l Hl. now apply E.
+  Qed.
+  Lemma canon2_eq : forall x x', canon2 x -> canon2 x' -> (forall r l, r < n -> l < W -> get2 x r l = get2 x' r l) -> x = x'.
+  Proof. intros x x' C C' E. rewrite C, C'. apply c09_tab_ext. intros r Hr. apply c09_tab_ext. intros l Hl. now apply E. Qed.
+
+  Lemma fold_last_canon : forall (X S : Type) (P : S -> Prop) (f : S -> X -> S) (l : list X) (a : S),
+    l <> [] -> (forall s x, P (f s x)) -> P (fold_left f l a).
+  Proof.
+    intros X S P f l a Hne Hf. destruct (exists_last Hne) as [l' [x E]]. subst l. rewrite fold_left_app. simpl. apply Hf.
+  Qed.
+
+  (* with at least one row and one lane the literal loops return literally the gather *)
+  Lemma swaprows_loops_eq : forall A i imax, 0 < n -> 0 < W -> i < n -> (forall l, l < W -> nth l imax 0 < n) ->
+    c09_v_swaprows_loops T zero W n A i imax = c09_v_swaprows T zero W n A i imax.
+  Proof.
+    intros A i imax Hn HW Hi Hp. apply canon3_eq.
+    - unfold c09_v_swaprows_loops. apply fold_last_canon.
+      + destruct n; [lia|]. simpl. discriminate.
+      + intros s j. apply fold_last_canon.
+        * destruct W; [lia|]. simpl. discriminate.
+        * intros s' l. unfold c09_swap_cell, c09_set3. apply canon3_tab.
+    - unfold c09_v_swaprows. apply canon3_tab.
+    - intros. now apply P_swaprows_loops.
+  Qed.
+
+  Lemma swapvec_loops_eq : forall x i imax, 0 < W -> i < n -> (forall l, l < W -> nth l imax 0 < n) ->
+    c09_v_swapvec_loops T zero W n x i imax = c09_v_swapvec T zero W n x i imax.
+  Proof.
+    intros x i imax HW Hi Hp. apply canon2_eq.
+    - unfold c09_v_swapvec_loops. apply fold_last_canon.
+      + destruct W; [lia|]. simpl. discriminate.
+      + intros s l. unfold c09_swap_cell2, c09_set2. apply canon2_tab.
+    - unfold c09_v_swapvec. apply canon2_tab.
+    - intros. now apply P_swapvec_loops.
+  Qed.
+End Canonical.
+
+(* luDecomposition's loop body with the swaps written as the literal per-lane loops IS the model's loop body: no side condition
+   beyond a valid row i and at least one lane (the pivot rows are in range because the pivot search says so) *)
+Lemma P_pivot_step_loops : forall (T U : Type) (mul : T -> T -> T) (absr : T -> U) (gt : U -> U -> bool) (nz : U -> bool) (zero one mone : T)
+                                  (W : nat) (dp : bool) (n i : nat) (st : c09_vst T), i < n -> 0 < W ->
+  c09_v_pivot_step_loops T U mul absr gt nz zero one mone W dp n i st = c09_v_pivot_step T U mul absr gt nz zero one mone W dp n i st.
+Proof.
+  intros. unfold c09_v_pivot_step_loops, c09_v_pivot_step. destruct dp; auto.
+  assert (R : forall l, l < W -> nth l (snd (c09_v_pivsearch T U absr gt zero W (c09_vA T st) i (seq (S i) (n - S i))
+                   (c09_vmap W zero absr (c09_vget T zero W (c09_vA T st) i i)) (c09_vbcast W i))) 0 < n).
+  { intros l Hl. pose proof (P_pivot_in_range T U absr gt zero W (c09_vA T st) n i (c09_vmap W zero absr (c09_vget T zero W (c09_vA T st) i i)) l H Hl) as P.
+    cbv zeta in P. lia. }
+  cbv zeta. rewrite swaprows_loops_eq by (auto; lia). rewrite swapvec_loops_eq by auto. reflexivity.
+Qed.
+
+(* invert: the whole column un-permutation with the literal loops, entry by entry, for pivot records in range (which luDecomposition guarantees:
+   C09_pivot_record_in_range) *)
+Section UnpermWhole.
+  Variable T : Type.
+  Variable zero : T.
+  Variable W n : nat.
+  Notation get3 := (c09_get3 T zero).
+
+  Lemma lane_vget_get3 : forall M r c l, l < W -> nth l (c09_vget T zero W M r c) zero = get3 M r c l.
+  Proof.
+    intros. unfold c09_vget, c09_g_get, c09_get3.
+    destruct (lt_dec c (length (nth r M []))) as [L|L].
+    - f_equal. apply nth_indep. exact L.
+    - rewrite !nth_overflow with (n := c) by lia. unfold c09_vzero, c09_vbcast. rewrite c09_tab_nth by assumption. now destruct l.
+  Qed.
+
+  Lemma unperm_step_get3 : forall M i pv r c l, r < n -> c < n -> l < W ->
+    get3 (c09_v_unperm_step T zero W n M i pv) r c l =
+    let p := nth l pv 0 in if c =? i then get3 M r p l else if c =? p then get3 M r i l else get3 M r c l.
+  Proof.
+    intros. unfold c09_v_unperm_step. unfold c09_get3 at 1.
+    rewrite (c09_tab_nth _ n _ r []) by assumption. rewrite (c09_tab_nth _ n _ c []) by assumption. rewrite c09_tab_nth by assumption.
+    cbv zeta. now rewrite !lane_vget_get3.
+  Qed.
+
+  Lemma P_unperm_loops : forall piv cols M M',
+    (forall i, In i cols -> i < n) -> (forall i l, i < n -> l < W -> nth l (nth i piv []) 0 < n) ->
+    (forall r c l, r < n -> c < n -> l < W -> get3 M r c l = get3 M' r c l) ->
+    forall r c l, r < n -> c < n -> l < W ->
+    get3 (c09_v_unperm_loops T zero W n piv cols M) r c l = get3 (c09_v_unperm T zero W n piv cols M') r c l.
+  Proof.
+    induction cols as [|i cols IH]; simpl; intros M M' Hc Hp E r c l Hr Hcc Hl; auto.
+    apply IH; auto.
+    intros r' c' l' Hr' Hc' Hl'.
+    rewrite P_unperm_step_loops by (auto; intros; apply Hp; auto).
+    rewrite !unperm_step_get3 by assumption. cbv zeta.
+    assert (Pl : nth l' (nth i piv []) 0 < n) by (apply Hp; auto).
+    destruct (c' =? i); [apply E; auto|]. destruct (c' =? nth l' (nth i piv []) 0); apply E; auto.
+  Qed.
+End UnpermWhole.
